@@ -7,7 +7,8 @@ import numpy as np
 from hypothesis import strategies as st
 from hypothesis.stateful import RuleBasedStateMachine, initialize, rule
 
-from vf import gen, quant
+from vf import gen, iodata_standin, quant
+from vf.ref import r4
 from vf.core import Verdict, mk_shell, nfunc
 from vf.run import SubCheck
 
@@ -23,13 +24,14 @@ from gbasis.integrals.overlap import overlap_integral
 from gbasis.integrals.overlap_asymm import overlap_integral_asymmetric
 from gbasis.integrals.point_charge import point_charge_integral
 from gbasis.parsers import make_contractions, parse_gbs, parse_nwchem
+from gbasis.wrappers import from_iodata
 
 RULE = ("A Hypothesis RuleBasedStateMachine over a shared pool (2-3 shell objects, points, charge/coordinate arrays, density "
         "matrix, transformation, coord_types list, basis dictionary, atoms/coordinates, basis-set files).  Rules with generated "
         "arguments: every public integral / evaluation / density / stress / ESP / import function as a VALID call on the pooled "
         "objects; the same functions as deliberately INVALID calls (wrong shape, wrong dtype incl. non-numeric arrays, wrong "
         "length, bad notation / deriv_type / coordinate type, negative threshold, mismatched or non-symmetric density matrix); "
-        "set_param (new exps / coeffs / coord through the setters, or by changing in place the arrays the shell holds); renormalise (assign_norm_cont); set_errstate.  Invariants "
+        "import_iodata (from_iodata on one of two pooled IOData stand-ins with different conventions; the imported shells join the pool); set_param (new exps / coeffs / coord through the setters, or by changing in place the arrays the shell holds); renormalise (assign_norm_cont); set_errstate.  Invariants "
         "after EVERY step: byte-level snapshots of every pooled array/list and of every shell's coord, exps, coeffs, norm_cont, "
         "coord_type, angmom equal the model (which changes only through set_param / renormalise); numpy.geterr() equals what the "
         "machine last set, whether the call returned or raised; the value of a valid call equals the value of the same call on "
@@ -40,7 +42,9 @@ ASSUMPTIONS = ["histories up to 25 steps over the listed public functions; objec
 
 VALID = [q.name for q in quant.ALL] + ["overlap_integral_asymmetric", "overlap_integral[screened]", "make_contractions",
                                        "parse_nwchem", "parse_gbs", "evaluate_density_using_evaluated_orbs",
-                                       "evaluate_general_kinetic_energy_density", "evaluate_deriv_reduced_density_matrix"]
+                                       "evaluate_general_kinetic_energy_density", "evaluate_deriv_reduced_density_matrix",
+                                       "iodata:0:eval", "iodata:1:eval", "iodata:0:overlap", "iodata:1:overlap", "iodata:0:deriv",
+                                       "iodata:1:deriv"]
 INVALID = ["points-wrong-shape", "points-object-dtype", "charges-wrong-length", "charges-non-numeric", "esp-non-numeric-charges",
            "esp-non-numeric-coords", "esp-negative-threshold", "esp-gamma-wrong-size", "eri-bad-notation", "deriv-bad-type",
            "deriv-negative-order", "deriv-float-order", "density-nonsymmetric", "density-wrong-size", "moment-float-orders",
@@ -59,7 +63,12 @@ def snap(x):
     if isinstance(x, (list, tuple)):
         return (type(x).__name__, tuple(snap(v) for v in x))
     if isinstance(x, GeneralizedContractionShell):
-        return ("shell", id(x), x.angmom, x.coord_type, snap(x.coord), snap(x.exps), snap(x.coeffs), snap(x.norm_cont), x.icenter)
+        try:
+            sph = tuple(x.angmom_components_sph)
+        except Exception as e:  # noqa: BLE001 - a convention that stopped supporting the shell is a change too
+            sph = ("raises", type(e).__name__)
+        return ("shell", id(x), x.angmom, x.coord_type, snap(x.coord), snap(x.exps), snap(x.coeffs), snap(x.norm_cont), x.icenter,
+                tuple(map(tuple, np.asarray(x.angmom_components_cart).tolist())), sph)
     return ("val", repr(x))
 
 
@@ -80,7 +89,7 @@ class World:
             "points": np.array(init["points"], dtype=float), "nuc_coords": np.array(init["nuc_coords"], dtype=float),
             "nuc_charges": np.array(init["nuc_charges"], dtype=float), "origin": np.array(init["origin"], dtype=float),
             "orders": np.array(init["orders"], dtype=int), "deriv_order": np.array(init["deriv_order"], dtype=int),
-            "alpha": init["alpha"], "beta": init["beta"],
+            "alpha": init["alpha"], "beta": init["beta"], "tol_screen": 1e-5,
             "gamma": np.array(init["gamma"], dtype=float),
         }
         self.transform = np.array(init["transform"], dtype=float)
@@ -93,6 +102,17 @@ class World:
         self.paths = {"nwchem": os.path.join(self.tmp, "b.nwchem"), "gbs": os.path.join(self.tmp, "b.gbs")}
         open(self.paths["nwchem"], "w").write(NWCHEM)
         open(self.paths["gbs"], "w").write(GBS)
+        # two IOData stand-ins with different component conventions; shells imported from them join the pool
+        self.mol_shells = [
+            {"l": 1, "coord": [0.0, 0.1, -0.2], "exps": [1.1, 0.3], "coeffs": [[0.6], [0.5]], "type": "cartesian"},
+            {"l": 2, "coord": [0.4, -0.3, 0.5], "exps": [0.9], "coeffs": [[1.0]], "type": "cartesian"},
+            {"l": 2, "coord": [-0.5, 0.2, 0.3], "exps": [1.4, 0.5], "coeffs": [[0.3], [0.8]], "type": "spherical"},
+        ]
+        self.mol_conv = init.get("iodata_conv") or [
+            {str(l): {"c": [list(c) for c in r4.default_cart(l)], "p": r4.default_sph(l)} for l in (1, 2)},
+            {str(l): {"c": [list(c) for c in r4.default_cart(l)][::-1], "p": r4.default_sph(l)[::-1]} for l in (1, 2)}]
+        self.mols = [iodata_standin.molecule(self.mol_shells, c) for c in self.mol_conv]
+        self.imported = [None, None]
         self.history = []
         self.snapshot = self.take()
         self.flags = set()
@@ -108,9 +128,11 @@ class World:
         os.rmdir(self.tmp)
 
     def pool(self):
+        mols = [[m.atcoords, [(sh_.exponents, sh_.coeffs, list(sh_.angmoms), list(sh_.kinds)) for sh_ in m.obasis.shells],
+                 {str(k): list(v) for k, v in m.obasis.conventions.items()}] for m in self.mols]
         return [self.shells, self.env["points"], self.env["nuc_coords"], self.env["nuc_charges"], self.env["origin"],
                 self.env["orders"], self.env["deriv_order"], self.env["gamma"], self.transform, self.gamma_t, self.coord_types,
-                self.atoms, self.coords, self.basis_dict]
+                self.atoms, self.coords, self.basis_dict, mols, [list(b) if b is not None else None for b in self.imported]]
 
     def take(self):
         return snap(self.pool())
@@ -136,6 +158,14 @@ class World:
             return gd.evaluate_density_using_evaluated_orbs(env["gamma"], evaluate_basis(shells, env["points"]))
         if name == "evaluate_general_kinetic_energy_density":
             return gd.evaluate_general_kinetic_energy_density(aux["psd"], shells, env["points"], env["alpha"])
+        if name.startswith("iodata:"):
+            which = int(name[7])
+            shells_io = aux["imported"][which]
+            if shells_io is None:
+                return np.zeros(1)
+            fn = {"eval": lambda: evaluate_basis(shells_io, env["points"]), "overlap": lambda: overlap_integral(shells_io),
+                  "deriv": lambda: evaluate_deriv_basis(shells_io, env["points"], env["deriv_order"])}[name[9:]]
+            return fn()
         if name == "evaluate_deriv_reduced_density_matrix":
             return gd.evaluate_deriv_reduced_density_matrix(env["deriv_order"], np.array([1, 0, 0]), env["gamma"], shells, env["points"])
         raise KeyError(name)
@@ -203,7 +233,10 @@ class World:
         env = {k: (v.copy() if isinstance(v, np.ndarray) else v) for k, v in self.env.items()}
         aux = {"basis_dict": {k: [(l, e.copy(), c.copy()) for l, e, c in v] for k, v in self.basis_dict.items()},
                "atoms": list(self.atoms), "coords": self.coords.copy(), "coord_types": list(self.coord_types),
-               "paths": self.paths, "psd": self.env["gamma"] @ self.env["gamma"].T}
+               "paths": self.paths, "psd": self.env["gamma"] @ self.env["gamma"].T,
+               # never-shared copies: imported afresh from a fresh stand-in of the same molecule
+               "imported": [None if b is None else from_iodata(iodata_standin.molecule(self.mol_shells, c))
+                            for b, c in zip(self.imported, self.mol_conv)]}
         return shells, env, self.transform.copy(), self.gamma_t.copy(), aux
 
     def step(self, st_):
@@ -214,7 +247,7 @@ class World:
             warnings.simplefilter("ignore")
             if kind == "valid":
                 aux = {"basis_dict": self.basis_dict, "atoms": self.atoms, "coords": self.coords, "coord_types": self.coord_types,
-                       "paths": self.paths, "psd": self.env["gamma"] @ self.env["gamma"].T}
+                       "paths": self.paths, "psd": self.env["gamma"] @ self.env["gamma"].T, "imported": self.imported}
                 try:
                     got, exc = self.call_valid(st_["name"], st_["t"], self.shells, self.env, self.transform, self.gamma_t, aux), None
                 except Exception as e:  # noqa: BLE001
@@ -297,6 +330,22 @@ class World:
                 if getattr(self, "pending", False):
                     self.after_renorm = True
                 return self.invariants("renormalise")
+            if kind == "import_iodata":
+                w_ = st_["which"] % 2
+                before = self.take()
+                try:
+                    new = from_iodata(self.mols[w_])
+                except Exception as e:  # noqa: BLE001
+                    return f"from_iodata raised {type(e).__name__}: {e}"
+                if self.take() != before:
+                    names = ["pool"] * 14 + ["IOData molecules", "shells imported earlier through from_iodata"]
+                    changed = [n for n, a, b in zip(names, before[1], self.take()[1]) if a != b]
+                    np.seterr(**self.err)
+                    return f"from_iodata(molecule {w_}) modified {sorted(set(changed))}"
+                self.imported[w_] = new
+                self.snapshot = self.take()
+                self.flags.add("iodata-import")
+                return self.invariants(f"from_iodata(molecule {w_})")
             if kind == "set_errstate":
                 self.err = dict(self.err, divide=st_["divide"], over=st_["over"], invalid=st_["invalid"])
                 np.seterr(**self.err)
@@ -310,7 +359,7 @@ class World:
             return f"{what} changed the process-wide numpy error state from {self.err} to {now}"
         if self.take() != self.snapshot:
             names = ["shells", "points", "nuc_coords", "nuc_charges", "origin", "orders", "deriv_order", "gamma", "transform", "gamma_t",
-                     "coord_types", "atoms", "coords", "basis_dict"]
+                     "coord_types", "atoms", "coords", "basis_dict", "IOData molecules", "shells imported earlier through from_iodata"]
             changed = [n for n, a, b in zip(names, self.snapshot[1], self.take()[1]) if a != b]
             return f"{what} modified its argument(s): {changed}"
         return None
@@ -416,6 +465,10 @@ def machine(shard, report):
               inplace=st.booleans())
         def set_param(self, shell, what, factor, inplace):
             self.do({"rule": "set_param", "shell": shell, "what": what, "factor": factor, "inplace": inplace})
+
+        @rule(which=st.integers(0, 1))
+        def import_iodata(self, which):
+            self.do({"rule": "import_iodata", "which": which})
 
         @rule(shell=st.integers(0, 2))
         def renormalise(self, shell):
